@@ -168,7 +168,7 @@ def basis_term(ops, n):
     return len(Bv), len(Bt), term, Bv, Bt
 
 
-def run_terms(ck, name, terms, fn="runb", chunk=30, imports=IMPORTS):
+def run_terms(ck, name, terms, fn="runb", chunk=90, imports=IMPORTS):
     import re
     out = []
     for a in range(0, len(terms), chunk):
@@ -485,6 +485,19 @@ def crystal_case(ck, rng, label, crys, ex):
     return res
 
 
+def special_crystals():
+    """crystals whose sites have site symmetries that random pools rarely hit"""
+    from onsager import crystal
+    a = np.array
+    out = []
+    x, y, z = 0.25, 1 / 12, 1 / 6
+    out.append(("site-S4", crystal.Crystal(np.diag([1., 1., 1.2]), [[a([0., 0, 0])], [a([x, y, z]), a([-x, -y, z]), a([y, -x, -z]), a([-y, x, -z])]])))
+    out.append(("site-C3h", crystal.Crystal(a([[1, 0, 0], [-.5, math.sqrt(3) / 2, 0], [0, 0, 1.5]]).T,
+                                            [[a([0., 0, 0])], [a([1 / 4, 1 / 12, 0.]), a([-1 / 12, 1 / 6, 0.]), a([-1 / 6, -1 / 4, 0.])]])))
+    out.append(("site-C4-2d", crystal.Crystal(np.eye(2), [[a([0., 0])], [a([1 / 4, 1 / 12]), a([-1 / 12, 1 / 4]), a([-1 / 4, -1 / 12]), a([1 / 12, -1 / 4])]])))
+    return out
+
+
 def run(ck):
     ck.rule = ("(a) every subgroup of O_h (2 lattice settings), D_6h (2 orientations), D_4, D_6 (2 orientations) x operation orderings "
                "(all for order <= 4, else sorted/reversed/random); (b) crystal pool (named + random systems, 2-D/3-D, 1-3 species, 1-3 sites, "
@@ -498,7 +511,11 @@ def run(ck):
     ncert = exhaustive(ck, rng)
     # crystals
     cases = []
-    for label, crys, chem, ex in sg.pool(rng, ck.n(24, 140), random_frac=0.7, nchem_max=3, maxatoms=3):
+    for label, crys in special_crystals():
+        ex = sg.Exact(crys)
+        if not ex.ok: raise RuntimeError("special crystal %s is not rational" % label)
+        cases.append(crystal_case(ck, rng, label, crys, ex))
+    for label, crys, chem, ex in sg.pool(rng, ck.n(18, 140), random_frac=0.7, nchem_max=3, maxatoms=3):
         cases.append(crystal_case(ck, rng, label, crys, ex))
     try:
         scodes = run_terms(ck, "sites", [c["site_term"] for c in cases], fn="check_sites", chunk=12, imports=SITE_IMPORTS)
